@@ -154,6 +154,10 @@ func pathD(v ssa.Value, d int) string {
 		if b := closureParamBinding(x); b != nil {
 			return pathD(b, d+1)
 		}
+		// the parameter of a predicate handed to slices.ContainsFunc / IndexFunc / … stands for an element of the slice
+		if sl := sliceFuncElement(x); sl != nil {
+			return pathD(sl, d+1) + "[]"
+		}
 		if s := curProg.HelperSite(x.Parent()); s != nil && belowScopeRoot(x.Parent()) {
 			for i, q := range x.Parent().Params {
 				if q == x && i < len(s.Common().Args) {
@@ -1157,4 +1161,91 @@ func (p *Prog) ScopeFns(root *ssa.Function) []*ssa.Function {
 		return hs[i].String() < hs[j].String()
 	})
 	return append(res, hs...)
+}
+
+// sliceFuncElement: par is the only parameter of a function literal that is passed
+// as the predicate to a library routine of package slices taking (slice,
+// predicate) — ContainsFunc, IndexFunc, DeleteFunc, … Returns the slice argument.
+func sliceFuncElement(par *ssa.Parameter) ssa.Value {
+	cl := par.Parent()
+	if cl == nil || cl.Parent() == nil || len(cl.Params) != 1 || cl.Params[0] != par {
+		return nil
+	}
+	var res ssa.Value
+	for _, b := range cl.Parent().Blocks {
+		for _, ins := range b.Instrs {
+			c, ok := ins.(*ssa.Call)
+			if !ok || len(c.Call.Args) != 2 {
+				continue
+			}
+			callee := c.Call.StaticCallee()
+			if callee == nil || fnPkgPath(callee) != "slices" || !strings.HasSuffix(originName(callee), "Func") {
+				continue
+			}
+			pred := c.Call.Args[1]
+			if mc, isMC := pred.(*ssa.MakeClosure); isMC {
+				pred = mc.Fn
+			}
+			if f, isF := pred.(*ssa.Function); isF && f == cl {
+				res = c.Call.Args[0]
+			}
+		}
+	}
+	return res
+}
+
+// predicateFunctions: the functions a function-typed value may be — a literal, a
+// named function, or what a repository function returns (a predicate constructor
+// such as hasTypeAndRole(t, r)).
+func predicateFunctions(v ssa.Value, depth int) []*ssa.Function {
+	if depth > 3 || v == nil {
+		return nil
+	}
+	switch x := v.(type) {
+	case *ssa.MakeClosure:
+		if f, ok := x.Fn.(*ssa.Function); ok {
+			return []*ssa.Function{f}
+		}
+	case *ssa.Function:
+		return []*ssa.Function{x}
+	case *ssa.Call:
+		h := x.Call.StaticCallee()
+		if h == nil || h.Blocks == nil || !strings.HasPrefix(fnPkgPath(h), repoMod) {
+			return nil
+		}
+		var res []*ssa.Function
+		for _, b := range h.Blocks {
+			if ret, ok := b.Instrs[len(b.Instrs)-1].(*ssa.Return); ok && len(ret.Results) == 1 {
+				res = append(res, predicateFunctions(ret.Results[0], depth+1)...)
+			}
+		}
+		return res
+	case *ssa.ChangeType:
+		return predicateFunctions(x.X, depth+1)
+	}
+	return nil
+}
+
+// decidingValues: the conditions and returned values of a predicate function, and
+// of the unexported repository functions it calls (two levels).
+func decidingValues(f *ssa.Function, depth int, visit func(v ssa.Value)) {
+	if f == nil || f.Blocks == nil || depth > 2 {
+		return
+	}
+	for _, b := range f.Blocks {
+		for _, ins := range b.Instrs {
+			switch x := ins.(type) {
+			case *ssa.If:
+				visit(x.Cond)
+			case *ssa.Return:
+				for _, rv := range x.Results {
+					visit(rv)
+				}
+			case *ssa.Call:
+				if h := x.Call.StaticCallee(); h != nil && h.Blocks != nil && strings.HasPrefix(fnPkgPath(h), repoMod) && !isExportedFn(originOf(h)) {
+					decidingValues(h, depth+1, visit)
+				}
+			}
+		}
+	}
 }
